@@ -236,6 +236,8 @@ def main(tier_: str) -> int:
         # ---- field boundary values ---------------------------------------------------------------------
         def rt_box(box, check) -> int:
             try:
+                if callable(box):
+                    box = box()         # construction belongs to the observation: it runs code under test too
                 b = box.encode()
                 from dashlive.utils.buffered_reader import BufferedReader
                 back = mp4.Mp4Atom.load(BufferedReader(None, data=bytes(b)), options=mp4.Options(mode='rw', lazy_load=False))[0]
@@ -338,13 +340,17 @@ def main(tier_: str) -> int:
                                       (f' failing offset:value {bad[:6]}' if bad else ''), 'eq': 0 if bad else 1})
         out.coverage['legal_byte_mutations'] = nmut
         for payload in (b'0x48656c6c6f', b'0x', b'0X4142', b"b'00'", b'hx=4142', b'b64=QUJD'):
-            em = mp4.EventMessageBox(version=0, flags=0, scheme_id_uri='urn:x', value='v', timescale=100, presentation_time_delta=1,
-                                     presentation_time=1, event_duration=1, event_id=1, data=payload)
+            def mk_em(payload=payload):
+                return mp4.EventMessageBox(version=0, flags=0, scheme_id_uri='urn:x', value='v', timescale=100, presentation_time_delta=1,
+                                           presentation_time=1, event_duration=1, event_id=1, data=payload)
+
+            def mk_ps(payload=payload):
+                return mp4.ContentProtectionSpecificBox(version=1, flags=0, system_id=bytes(range(16)), key_ids=[b'0x' + bytes(14)],
+                                                        data=payload)
             lines.append({'ev': 'field', 'box': 'emsg', 'field': 'data (literal-looking payload)', 'value_class': payload.decode('ascii'),
-                          'eq': rt_box(em, lambda b: getattr(b.data, 'data', b.data) == payload)})
-            ps = mp4.ContentProtectionSpecificBox(version=1, flags=0, system_id=bytes(range(16)), key_ids=[b'0x' + bytes(14)], data=payload)
+                          'eq': rt_box(mk_em, lambda b, payload=payload: getattr(b.data, 'data', b.data) == payload)})
             lines.append({'ev': 'field', 'box': 'pssh', 'field': 'data / key id (literal-looking payload)', 'value_class': payload.decode('ascii'),
-                          'eq': rt_box(ps, lambda b: len(b.key_ids or []) == 1 and len(b.data or b'') == len(payload))})
+                          'eq': rt_box(mk_ps, lambda b, payload=payload: len(b.key_ids or []) == 1 and len(b.data or b'') == len(payload))})
         for i, ln in enumerate(lines):
             ln['tid'] = i + 1
         vs, st = validate_trace('BoxTreeTrace', lines, workdir=d, chunk=400, parallel=10)
